@@ -19,12 +19,35 @@ def U():
     return TOpaque().sort()
 
 
+def heap_array(I, attr, sort):
+    """Mutable attributes of opaque objects: one z3 array per attribute name (object -> value), updated by Store.
+    Only attributes that some verified function assigns are kept here (declared in reg.opaque_attr_types)."""
+    heap = I.__dict__.setdefault("opaque_heap", {})
+    if attr not in heap:
+        heap[attr] = z3.Const(f"heap0!{attr}", z3.ArraySort(U(), sort))
+    return heap[attr]
+
+
 def o_getattr(self, I, attr, node):
+    types = getattr(I.reg, "opaque_attr_types", {})
+    if isinstance(attr, str) and attr in types:
+        ty = I.reg.type(types[attr])
+        return ty.wrap(z3.simplify(heap_array(I, attr, ty.sort())[self.t]))
     if isinstance(attr, str):
         k = z3.IntVal(intern(attr))
     else:
         k = str_term(attr)
     return SOpaque(ufun("U!attr", U(), z3.IntSort(), U())(self.t, k), "any")
+
+
+def o_setattr(self, I, attr, v, node):
+    types = getattr(I.reg, "opaque_attr_types", {})
+    if attr not in types:
+        raise Unsupported(f"{I.frame.qualname}:{I.line(node)} store to attribute '{attr}' of an opaque object (declare it in opaque_attr_types)")
+    ty = I.reg.type(types[attr])
+    arr = heap_array(I, attr, ty.sort())
+    I.opaque_heap[attr] = z3.Store(arr, self.t, ty.unwrap(v, I.ctx))
+    return None
 
 
 def o_hasattr(self, I, name):
@@ -48,6 +71,7 @@ def o_iterate(self, I):
 
 
 SOpaque.getattr = o_getattr
+SOpaque.setattr = o_setattr
 SOpaque.hasattr = o_hasattr
 SOpaque.call = o_call
 SOpaque.method = o_method
